@@ -58,6 +58,13 @@ def base_name(e):
 def function_problems(rel: str, fn: ast.FunctionDef, mod_names: set, class_names: set):
     probs = []
     locs = local_names(fn)
+    # a mutable default value is evaluated once, at definition time: it is storage shared by every call (and every thread)
+    a = fn.args
+    pos = a.posonlyargs + a.args
+    for arg, dflt in list(zip(pos[len(pos) - len(a.defaults):], a.defaults)) + [(k, d) for k, d in zip(a.kwonlyargs, a.kw_defaults) if d is not None]:
+        if isinstance(dflt, (ast.List, ast.Dict, ast.Set, ast.ListComp, ast.DictComp, ast.SetComp)) or \
+                (isinstance(dflt, ast.Call) and isinstance(dflt.func, ast.Name) and dflt.func.id in ("list", "dict", "set", "defaultdict", "deque", "bytearray")):
+            probs.append(f"line {fn.lineno}: parameter `{arg.arg}` has a mutable default `{ast.unparse(dflt)[:40]}`: one object shared by all calls of `{fn.name}`")
     for n in ast.walk(fn):
         if isinstance(n, (ast.Global, ast.Nonlocal)):
             probs.append(f"line {n.lineno}: `{type(n).__name__.lower()} {', '.join(n.names)}`")
